@@ -591,6 +591,11 @@ def ite(c, a, b):
         return a if c.value else b
     if a == b:
         return a
+    # nested selections with a shared arm are one selection: `if c1: if c2: x = a` is `if c1 and c2: x = a`
+    if isinstance(a, App) and a.fn == "ite" and len(a.args) == 3 and a.args[2] == b:
+        return ite(conj([c, a.args[0]]), a.args[1], b)
+    if isinstance(b, App) and b.fn == "ite" and len(b.args) == 3 and b.args[1] == a:
+        return ite(disj([c, b.args[0]]), a, b.args[2])
     return App("ite", (c, a, b))
 
 
